@@ -191,3 +191,64 @@ Definition rs_cov_def (s : schema) (df : definition) : bool :=
 
 (* Known_C33 *)
 Definition rs_known_covariant (s : schema) (d : document) : bool := existsb (rs_cov_def s) d.
+
+(* ---- well-typedness of selections (what building the ExecutableDocument and validation establish), used by
+   the no-panic theorem: every field has a definition on the type it is written under; a field without
+   sub-selections has an enum (with values) or scalar type; a field with sub-selections has a composite type
+   (a union with members) that is not one of the five registered scalar names ---- *)
+Definition rs_leaf_type (s : schema) (n : str) : bool :=
+  match sch_get_type s n with
+  | Some (EEnum _ _ _ values _) => match values with [] => false | _ => true end
+  | Some (EScalar _ _ _ _) => true
+  | _ => false
+  end.
+
+Definition rs_composite_type (s : schema) (n : str) : bool :=
+  match sch_get_type s n with
+  | Some (EObject _ _ _ _ _ _) | Some (EInterface _ _ _ _ _ _) => true
+  | Some (EUnion _ _ _ members _) => match members with [] => false | _ => true end
+  | _ => false
+  end
+  && match rs_registered n with Some _ => false | None => true end.
+
+Fixpoint rs_typed_sel (s : schema) (p : str) (sel : selection) : bool :=
+  match sel with
+  | SField _ name _ _ sels =>
+      if streq name rs_typename then match sels with [] => true | _ => false end
+      else match rs_field_ty s p name with
+           | None => false
+           | Some t =>
+               match sels with
+               | [] => rs_leaf_type s (inner_named_type t)
+               | _ => rs_composite_type s (inner_named_type t) && forallb (rs_typed_sel s (inner_named_type t)) sels
+               end
+           end
+  | SSpread _ _ => true
+  | SInline cond _ sels => forallb (rs_typed_sel s (match cond with Some c => c | None => p end)) sels
+  end.
+
+(* every fragment body is well typed under its type condition *)
+Definition rs_typed_fragments (s : schema) (d : document) : bool :=
+  forallb (fun df => match df with
+                     | DFragment _ cond _ sels => forallb (rs_typed_sel s cond) sels
+                     | _ => true
+                     end) d.
+
+Definition rs_cfg_ok (cfg : rs_cfg) : bool :=
+  (rc_min cfg <=? rc_max cfg) && match rc_null cfg with Some (_, den) => negb (den =? 0) | None => true end.
+
+(* outcomes that are not failures of the generator *)
+Definition RsSafe {A} (r : rs_res A) : Prop :=
+  match r with RsPanic | RsEmptyChoose | RsInvalidDoc => False | _ => True end.
+
+(* the hypotheses of the no-panic theorem for one operation, as one decidable check *)
+Definition rs_typed_operation (s : schema) (d : document) (opname : option str) : bool :=
+  rs_typed_fragments s d &&
+  match rs_find_operation d opname with
+  | None => true
+  | Some (o, _, sels) =>
+      match rs_root_type s o with
+      | None => false
+      | Some root => rs_composite_type s root && forallb (rs_typed_sel s root) sels
+      end
+  end.
